@@ -136,8 +136,10 @@ type env struct {
 	ak    akeeper.IKeeper
 	ds    dtypes.MsgServer
 	ms    mtypes.MsgServer
-	NO    int // order slots per group
+	NO    int // order slots of group 1 (further groups have one)
 	NP    int // providers
+	ngroups map[uint64]int
+	msgGroup int // the group named by the message of this step (0: none)
 	minBid, minDep sdk.Int
 }
 
@@ -152,7 +154,7 @@ func acc(i int) sdk.AccAddress {
 }
 
 func newEnv(no, np int) *env {
-	e := &env{NO: no, NP: np}
+	e := &env{NO: no, NP: np, ngroups: map[uint64]int{1: nGroups}}
 	keys := map[string]*sdk.KVStoreKey{}
 	var all []sdk.StoreKey
 	for _, n := range []string{etypes.StoreKey, dtypes.StoreKey, mtypes.StoreKey, ptypes.StoreKey, atypes.StoreKey, "params"} {
@@ -190,16 +192,51 @@ func newEnv(no, np int) *env {
 // ---------- identifiers ----------
 
 func did(dseq uint64) dtypes.DeploymentID { return dtypes.DeploymentID{Owner: addr(0), DSeq: dseq} }
-func gid(dseq uint64) dtypes.GroupID      { return dtypes.MakeGroupID(did(dseq), 1) }
-func oid(dseq uint64, o int) mtypes.OrderID {
-	return mtypes.MakeOrderID(gid(dseq), uint32(o))
-}
-func bidid(dseq uint64, o, p int) mtypes.BidID { return mtypes.MakeBidID(oid(dseq, o), acc(p)) }
-func lid(dseq uint64, o, p int) mtypes.LeaseID  { return mtypes.MakeLeaseID(bidid(dseq, o, p)) }
+func gid(dseq uint64) dtypes.GroupID      { return gidG(dseq, 1) }
+func oid(dseq uint64, o int) mtypes.OrderID { return oidG(dseq, 1, o) }
+func bidid(dseq uint64, o, p int) mtypes.BidID { return bididG(dseq, 1, o, p) }
+func lid(dseq uint64, o, p int) mtypes.LeaseID  { return lidG(dseq, 1, o, p) }
 
-func spec(price sdk.Int) dtypes.GroupSpec {
+// group-indexed identifiers (the *_g2 universe has a second group in the focus deployment)
+func gidG(dseq uint64, g int) dtypes.GroupID { return dtypes.MakeGroupID(did(dseq), uint32(g)) }
+func oidG(dseq uint64, g, o int) mtypes.OrderID {
+	return mtypes.MakeOrderID(gidG(dseq, g), uint32(o))
+}
+func bididG(dseq uint64, g, o, p int) mtypes.BidID { return mtypes.MakeBidID(oidG(dseq, g, o), acc(p)) }
+func lidG(dseq uint64, g, o, p int) mtypes.LeaseID  { return mtypes.MakeLeaseID(bididG(dseq, g, o, p)) }
+
+// gk identifies a group in a snapshot
+type gk struct {
+	d uint64
+	g int
+}
+
+// nGroups: number of groups of the focus deployment (1, or 2 in the *_g2 harnesses)
+var nGroups = 1
+
+// groupsOf: how many groups deployment dseq has (when it exists)
+func (e *env) groupsOf(dseq uint64) int {
+	if n, ok := e.ngroups[dseq]; ok {
+		return n
+	}
+	return 1
+}
+
+// slots: order slots of group g when group 1 has no
+func (e *env) slots(g, no int) int {
+	if g == 1 {
+		return no
+	}
+	return no - e.NO + 1
+}
+
+var groupNames = []string{"", "g", "h"}
+
+func spec(price sdk.Int) dtypes.GroupSpec { return specN(price, 1) }
+
+func specN(price sdk.Int, g int) dtypes.GroupSpec {
 	return dtypes.GroupSpec{
-		Name: "g",
+		Name: groupNames[g],
 		Resources: []dtypes.Resource{{
 			Resources: akashtypes.ResourceUnits{
 				CPU:     &akashtypes.CPU{Units: akashtypes.NewResourceValue(100)},
@@ -216,7 +253,7 @@ func spec(price sdk.Int) dtypes.GroupSpec {
 
 type state struct {
 	dep    map[uint64]dtypes.Deployment
-	grp    map[uint64]dtypes.Group
+	grp    map[gk]dtypes.Group
 	ord    map[mtypes.OrderID]mtypes.Order
 	bid    map[mtypes.BidID]mtypes.Bid
 	lease  map[mtypes.LeaseID]mtypes.Lease
@@ -233,13 +270,13 @@ func leasePayKey(l mtypes.LeaseID) string {
 }
 
 func (e *env) snapshot() state {
-	s := state{dep: map[uint64]dtypes.Deployment{}, grp: map[uint64]dtypes.Group{}, ord: map[mtypes.OrderID]mtypes.Order{},
+	s := state{dep: map[uint64]dtypes.Deployment{}, grp: map[gk]dtypes.Group{}, ord: map[mtypes.OrderID]mtypes.Order{},
 		bid: map[mtypes.BidID]mtypes.Bid{}, lease: map[mtypes.LeaseID]mtypes.Lease{}, acct: map[etypes.AccountID]etypes.Account{},
 		pay: map[string]etypes.Payment{}, wallet: map[string]sdk.Int{}}
 	e.dk.WithDeployments(e.ctx, func(d dtypes.Deployment) bool {
 		s.dep[d.DeploymentID.DSeq] = d
 		for _, g := range e.dk.GetGroups(e.ctx, d.DeploymentID) {
-			s.grp[g.GroupID.DSeq] = g
+			s.grp[gk{g.GroupID.DSeq, int(g.GroupID.GSeq)}] = g
 		}
 		return false
 	})
@@ -291,35 +328,41 @@ func (e *env) seedDeployment(dseq uint64, no, np int, mayBeAbsent bool) {
 	}
 	dst := dtypes.Deployment_State(verif_I32("deployment-state"))
 	d := dtypes.Deployment{DeploymentID: did(dseq), State: dst, Version: make([]byte, 32), CreatedAt: e.height("createdAt")}
-	gst := dtypes.Group_State(verif_I32("group-state"))
-	price := amount("max-price")
-	verif_Assume(price.IsPositive())
-	g := dtypes.Group{GroupID: gid(dseq), State: gst, GroupSpec: spec(price), CreatedAt: d.CreatedAt}
-	if err := e.dk.Create(e.ctx, d, []dtypes.Group{g}); err != nil {
+	ng := e.groupsOf(dseq)
+	var groups []dtypes.Group
+	for g := 1; g <= ng; g++ {
+		gst := dtypes.Group_State(verif_I32("group-state"))
+		price := amount("max-price")
+		verif_Assume(price.IsPositive())
+		groups = append(groups, dtypes.Group{GroupID: gidG(dseq, g), State: gst, GroupSpec: specN(price, g), CreatedAt: d.CreatedAt})
+	}
+	if err := e.dk.Create(e.ctx, d, groups); err != nil {
 		panic(err)
 	}
 	ast := etypes.Account_State(verif_I32("dacct-state"))
 	e.saveAccount(dtypes.EscrowAccountForDeployment(did(dseq)), 0, ast)
-	norders := 1 + verif_Choice("orders", no)
-	for o := 1; o <= norders; o++ {
-		ost := mtypes.Order_State(verif_I32("order-state"))
-		ord := mtypes.Order{OrderID: oid(dseq, o), State: ost, Spec: g.GroupSpec, CreatedAt: e.height("createdAt")}
-		e.rawSetOrder(ord)
-		for p := 1; p <= np; p++ {
-			shape := verif_Choice("bid-slot", 3) // 0 none, 1 bid, 2 bid+lease
-			if shape == 0 {
-				continue
-			}
-			bst := mtypes.Bid_State(verif_I32("bid-state"))
-			bprice := amount("bid-price")
-			b := mtypes.Bid{BidID: bidid(dseq, o, p), State: bst, Price: coin(bprice), CreatedAt: e.height("createdAt")}
-			e.rawSetBid(b)
-			e.saveAccount(mtypes.EscrowAccountForBid(b.BidID), p, etypes.Account_State(verif_I32("bacct-state")))
-			if shape == 2 {
-				lst := mtypes.Lease_State(verif_I32("lease-state"))
-				l := mtypes.Lease{LeaseID: lid(dseq, o, p), State: lst, Price: coin(amount("lease-price")), CreatedAt: e.height("createdAt")}
-				e.rawSetLease(l)
-				e.savePayment(l.LeaseID, p, etypes.Payment_State(verif_I32("pay-state")), amount("pay-rate"))
+	for g := 1; g <= ng; g++ {
+		norders := 1 + verif_Choice("orders", e.slots(g, no))
+		for o := 1; o <= norders; o++ {
+			ost := mtypes.Order_State(verif_I32("order-state"))
+			ord := mtypes.Order{OrderID: oidG(dseq, g, o), State: ost, Spec: groups[g-1].GroupSpec, CreatedAt: e.height("createdAt")}
+			e.rawSetOrder(ord)
+			for p := 1; p <= np; p++ {
+				shape := verif_Choice("bid-slot", 3) // 0 none, 1 bid, 2 bid+lease
+				if shape == 0 {
+					continue
+				}
+				bst := mtypes.Bid_State(verif_I32("bid-state"))
+				bprice := amount("bid-price")
+				b := mtypes.Bid{BidID: bididG(dseq, g, o, p), State: bst, Price: coin(bprice), CreatedAt: e.height("createdAt")}
+				e.rawSetBid(b)
+				e.saveAccount(mtypes.EscrowAccountForBid(b.BidID), p, etypes.Account_State(verif_I32("bacct-state")))
+				if shape == 2 {
+					lst := mtypes.Lease_State(verif_I32("lease-state"))
+					l := mtypes.Lease{LeaseID: lidG(dseq, g, o, p), State: lst, Price: coin(amount("lease-price")), CreatedAt: e.height("createdAt")}
+					e.rawSetLease(l)
+					e.savePayment(l.LeaseID, p, etypes.Payment_State(verif_I32("pay-state")), amount("pay-rate"))
+				}
 			}
 		}
 	}
